@@ -99,6 +99,56 @@ func (w *World) hostileRecoveryKind(r *Run, kind string) string {
 		name := fmt.Sprintf("%s.vol%02d+%02d.par2", w.Base, exps[0]+50, len(exps))
 		w.Disk.Put(filepath.Join(w.Dir, name), b)
 		r.Logf("hostile %s: %s exps=%v", kind, name, exps)
+	case "stale-generation-all":
+		// every recovery file present is the one an earlier Create wrote
+		// when the files had the same names, lengths and first 16 KiB but
+		// other bytes after that (same file ids, same recovery set id):
+		// a complete, self-consistent generation that does not fit the
+		// index's full-file hashes
+		variant := make([]ref.Protected, len(w.Files))
+		changed := false
+		for i, f := range w.Files {
+			d := append([]byte(nil), f.Data...)
+			if len(d) > 16384 {
+				g := prng{s: t.Draw64(0, "vseed")}
+				n := 1 + int(g.next()%8)
+				for k := 0; k < n; k++ {
+					o := 16384 + int(g.next()%uint64(len(d)-16384))
+					d[o] ^= byte(1 + g.next()%255)
+				}
+				changed = true
+			}
+			variant[i] = ref.Protected{Name: f.Name, Data: d}
+		}
+		if !changed || len(present) == 0 {
+			return "none"
+		}
+		var all []int
+		seen := map[int]bool{}
+		for _, p := range present {
+			for _, e := range w.Exps[p] {
+				if !seen[e] {
+					seen[e] = true
+					all = append(all, e)
+				}
+			}
+		}
+		if w.N*len(all)*w.S > 6<<20 {
+			return "none"
+		}
+		set := ref.BuildSet(variant, w.S, all, "older generation")
+		for _, p := range present {
+			nb := append([]byte(nil), set.Creator...)
+			for _, c := range set.CriticalPackets() {
+				nb = append(nb, c...)
+			}
+			for _, e := range w.Exps[p] {
+				nb = append(nb, set.Recovery[e]...)
+			}
+			w.Disk.Put(p, nb)
+		}
+		r.Probe("all-volumes-of-an-older-generation")
+		r.Logf("hostile %s: %d recovery files replaced", kind, len(present))
 	case "forged-recovery-block":
 		// a recovery packet that is valid by the format's own checks
 		// (framing, packet MD5, set id, exponent) but carries wrong
@@ -408,6 +458,68 @@ func (w *World) RewriteAsForeignPar2(r *Run) bool {
 			w.Bystanders[filepath.Join(w.Dir, e.Name)] = e.Data
 		}
 		r.Probe("par2-non-recovery-set-file")
+	}
+	remap := map[int]int{}
+	if t.Bool(1, 3, "own-exponents") {
+		// the other client numbers its recovery blocks its own way: a run
+		// that starts elsewhere (par2cmdline's first-block option), among
+		// others one that ends at the highest exponent there is (65534),
+		// or scattered values
+		sort.Ints(all)
+		n := len(all)
+		scheme := t.Draw(3, "exponent-scheme")
+		if w.N > 12 || w.N*w.S > 1024 {
+			// (gopar builds its coding matrix for every exponent up to the
+			// highest one present, and the double check regenerates every
+			// one of those blocks: keep all but tiny sets to low exponents)
+			scheme = 3
+		}
+		switch scheme {
+		case 3:
+			base := []int{1, 2, 255, 256, 1000}[t.Draw(5, "first-exponent-low")]
+			for k, e := range all {
+				remap[e] = base + k
+			}
+		case 0:
+			base := []int{1, 255, 256, 32767, 65535 - n, 65534 - n}[t.Draw(6, "first-exponent")]
+			for k, e := range all {
+				remap[e] = base + k
+			}
+		case 1:
+			base := t.Draw(65535-n, "first-exponent-any")
+			for k, e := range all {
+				remap[e] = base + k
+			}
+		default:
+			used := map[int]bool{}
+			var vals []int
+			if t.Bool(1, 2, "with-highest") {
+				vals = append(vals, 65534)
+				used[65534] = true
+			}
+			for len(vals) < n {
+				v := t.Draw(65535, "exponent")
+				if !used[v] {
+					used[v] = true
+					vals = append(vals, v)
+				}
+			}
+			sort.Ints(vals)
+			for k, e := range all {
+				remap[e] = vals[k]
+			}
+		}
+		for k, e := range all {
+			all[k] = remap[e]
+		}
+		for p, es := range w.Exps {
+			ne := make([]int, len(es))
+			for k, e := range es {
+				ne[k] = remap[e]
+			}
+			w.Exps[p] = ne
+		}
+		r.Probe("par2-foreign-writer-own-exponents")
 	}
 	set := ref.BuildSet(w.Files, w.S, all, "another client", extras...)
 	for p := range w.Created {
